@@ -11,13 +11,22 @@ RULE = ("configs: random line lists (length 0..18) mixing commands, comments wit
         "of tests/fixtures/configs; x syntax in ios/nxos/iosxr/asa x factory x ignore_blank_lines x comment delimiters "
         "(default, ['#'], ['!','#'], []). factory+ignore_blank_lines is refused by the constructor by design and is not generated. "
         "Word characters (\\w) are generated only below U+0100. non-trivial = has an indented, blank or banner/macro line; distinct by request.")
-LEVEL_TEXT = ("Theorems (Lean 4, all line lists, all four syntaxes and delimiter sets): the model of ConfigList.bootstrap + commit "
-              "returns exactly the input texts (without ignore_blank_lines), line i numbered i, and with ignore_blank_lines a "
-              "sub-list of the input in which every non-blank line is kept; the model cannot raise (it is a total function). "
+LEVEL_TEXT = ("Theorems (Lean 4, all line lists, every model configuration = ios / non-ios syntax x delimiter set x ignore_blank_lines): "
+              "parse_texts: without ignore_blank_lines the model of ConfigList.bootstrap + commit returns exactly the input texts in order; "
+              "parse_sizes: the result has one parent and one keep flag per text line (lines are numbered by position, so line i is number i); "
+              "parse_commit_idempotent: the second bootstrap done by commit() reproduces the first; "
+              "parse_texts_ignore_blank: the result texts are a sub-list of the input, their non-blank lines are exactly the non-blank lines "
+              "of the input, and with ignore_blank_lines the result is a fixed point of passes 1-3 + blank filter; parse_drops_only_blank; "
+              "parse_texts_eq_keepSpec: with ignore_blank_lines the result texts are exactly the input lines at the positions j with keepSpec j = "
+              "'non-blank, or within the stretch protected by a banner start (up to the first following line containing the delimiter) or an "
+              "ios macro start (up to and including the first @ line) at some position <= j' -- a specification written without the passes "
+              "(Spec/BlankKeep.lean; inBody_spec states its reading); parse_single_round: the restart loop never needs a second filtering round. "
+              "The model cannot raise (parse is a total function, no error result). "
               "Model tied to CiscoConfParse by differential runs on generated configs and the vendor fixtures.")
-LEVEL_NOTE = ("Trusted: Lean kernel, standard axioms, the harness. Modelled not verified: the two banner regexes (hand-written scanners), "
-              "\\w restricted to code points < 256, typed-model factory as 'may reject a line' (its acceptance is not modelled; a factory "
-              "parse that returns is compared like any other).")
+LEVEL_NOTE = ("Trusted: Lean kernel, standard axioms, the harness. Modelled not verified: the two banner "
+              "regexes (hand-written scanners; the specification keepSpec uses the same per-line recognisers), \\w restricted to code points < 256, "
+              "typed-model factory as 'may reject a line' (its acceptance is not modelled, so the design's parse_factory_lossless is covered by the "
+              "correspondence only; a factory parse that returns is compared like any other).")
 ASSUMPTIONS = ["no lone surrogates in line texts", "ignore_blank_lines together with factory is outside the constructor's domain"]
 TRUSTED = ["hand-written scanners for the banner start / delimiter regexes"]
 EXHAUSTIVE = {"quick": False, "thorough": False}
